@@ -137,7 +137,12 @@ func (r *Rng) DerivedPath(m map[string]interface{}, allowIdx bool, maxLen int) s
 			if r.P(70) {
 				break
 			}
-			segs = append(segs, r.Pick(plainKeys))
+			// a step beyond a scalar (or a scalar list member): a plain key or the wildcard
+			if r.P(40) {
+				segs = append(segs, "*")
+			} else {
+				segs = append(segs, r.Pick(plainKeys))
+			}
 			cur = nil
 			continue
 		}
